@@ -635,7 +635,11 @@ func RunCheck(opt Options) int {
 		present[n] = true
 	}
 	for _, l := range ledger {
-		if !present[l] {
+		l2 := l
+		for old, nw := range specTypeRenames {
+			l2 = regexp.MustCompile(`\b`+regexp.QuoteMeta(old)+`\b`).ReplaceAllString(l2, nw) // a renamed struct type (shape.go)
+		}
+		if !present[l] && !present[l2] {
 			report(l, "obligation recorded in the ledger was not generated from the current tree (vacuity guard)", nil)
 		}
 	}
